@@ -47,6 +47,14 @@ def plan(tier: str, seed: int) -> Plan:
             conds.append(Condition(f"unchanged:{style}:{spine}:{'+'.join(exprs)}", "unchanged", H, "unchanged",
                                    {"match": mq, "exprs": exprs, "style": style, "spine": spine, "maxn": 2, "leaf": "nbi"}, T, required=False,
                                    bounds="overlapping selections (a container and a node inside it); only 'document unchanged' is asserted"))
+    anc = [("$", ["$.xs", "$.xs[1].a"], "wrapobjarr"), ("$", ["$.xs", "$.xs[0].b", "$.xs[1].a"], "wrapobjarr"), ("$", ["$.xs[0:2]", "$.xs[1].b"], "wrapobjarr"),
+           ("$", ["$.a", "$.a[1]"], "nest1"), ("$", ["$.b", "$.b.a"], "nest1"), ("$", ["$[1]", "$[1].a"], "nest2"), ("$", ["$.a", "$.a.a.b"], "deep"),
+           ("$", ["$.b", "$.b[1].a"], "deep"), ("$", ["$[1]", "$[1][1][0]"], "nest3"), ("$.b", ["$[1]", "$[1].a"], "deep"), ("$", ["$.a", "$.a[0]"], "numkeys")]
+    for k, (mq, exprs, spine) in enumerate(anc):
+        for style in (["relative", "root"] if thorough else [["relative", "root"][k % 2]]):
+            conds.append(Condition(f"ancestor-first:{style}:{spine}:{'+'.join(exprs)}", "ancestor", H, "ancestor_first",
+                                   {"match": mq, "exprs": exprs, "style": style, "spine": spine, "maxn": 2, "leaf": "nbi"}, T, required=False,
+                                   bounds="a container selected whole, then a node inside it: the projection equals that of the container alone"))
     return Plan(
         conditions=conds,
         explanation=(
